@@ -20,8 +20,7 @@
      * a run folder is always given (run_folder is not None); `q_prev` describes the run_info.json found in it.
    NOT MODELLED: scopes (dotted names), renames (validated one-to-one by pipefunc; the harness passes the
      renamed names), resources, type annotations (C16), NestedPipeFunc, output_names / auto_subpipeline /
-     fixed_indices (C11 / C06), SLURM executors, progress widgets, a previous run of a DIFFERENT pipeline in the
-     folder, unreadable run_info.json, auto-generated MapSpecs (requests whose MapSpec inputs are produced by
+     fixed_indices (C11 / C06), SLURM executors, progress widgets, unreadable run_info.json, auto-generated MapSpecs (requests whose MapSpec inputs are produced by
      functions without MapSpec are outside the model).
    Definitions only; proofs are in Proofs/ValidateFacts.v. *)
 From Verif Require Import Base.Prelude Base.StrOrd Base.StrUtil Base.Graph Model.MapSpec Model.PrepareSteps.
@@ -194,6 +193,13 @@ Inductive ival :=
 | INd (sh : list nat) (d : str).       (* object ndarray *)
 Inductive storage_arg := StStr (n : str) | StDict (d : alist).
 
+(* the finished (or interrupted) run that wrote run_info.json *)
+Record prev_info := {
+  pv_inputs : list (str * ival);
+  pv_internal : shape_dict;              (* its internal_shapes ARGUMENT *)
+  pv_funcs : option (list raw_func)      (* its pipeline, when it differs from the current one (None = the same) *)
+}.
+
 Record mreq := {
   q_funcs : list raw_func;               (* the constructed pipeline (functions as they are when map is called) *)
   q_inputs : list (str * ival);
@@ -203,8 +209,7 @@ Record mreq := {
   q_parallel : bool;
   q_executor : bool;                     (* an executor is passed *)
   q_cleanup : bool;
-  q_prev : option (list (str * ival) * shape_dict)   (* run_info.json exists: inputs / internal_shapes argument
-                                                        of the run (of the same pipeline) that wrote it *)
+  q_prev : option prev_info              (* run_info.json exists in the run folder *)
 }.
 
 (* array_shape *)
@@ -327,15 +332,20 @@ Definition equal_inputs (new old : list (str * ival)) : cmp :=
   if negb (length new =? length old) then CFalse
   else if negb (seteq_str (akeys new) (akeys old)) then CFalse
   else cmp_values new old false.
-(* the request that wrote run_info.json, as a request on the same pipeline *)
-Definition prev_req (q : mreq) (p : list (str * ival) * shape_dict) : mreq :=
-  {| q_funcs := q_funcs q; q_inputs := fst p; q_internal := snd p; q_storage := q_storage q;
+(* the request that wrote run_info.json *)
+Definition prev_funcs (q : mreq) (p : prev_info) : list raw_func :=
+  match pv_funcs p with Some fs => fs | None => q_funcs q end.
+Definition prev_req (q : mreq) (p : prev_info) : mreq :=
+  {| q_funcs := prev_funcs q p; q_inputs := pv_inputs p; q_internal := pv_internal p; q_storage := q_storage q;
      q_registry := q_registry q; q_parallel := q_parallel q; q_executor := q_executor q;
      q_cleanup := q_cleanup q; q_prev := None |}.
-Definition old_internal (q : mreq) (p : list (str * ival) * shape_dict) : shape_dict :=
-  construct_internal (snd p) (q_funcs q).
-Definition old_shapes (q : mreq) (p : list (str * ival) * shape_dict) : result shapes_t :=
+Definition old_internal (q : mreq) (p : prev_info) : shape_dict :=
+  construct_internal (pv_internal p) (prev_funcs q p).
+Definition old_shapes (q : mreq) (p : prev_info) : result shapes_t :=
   map_shapes (prev_req q p) (old_internal q p).
+(* pipeline.mapspecs_as_strings: the MapSpecs of sorted_functions, printed (printing is injective on well-formed
+   printable specs: C08_print_injective) *)
+Definition sorted_specs (fs : list raw_func) : list mapspec := specs_of (sorted_funcs fs).
 
 (* ---------- the meaning of the check labels (labels as produced by harness/translate_prepare.py) ---------- *)
 Definition L_exec := s "raise ValueError@prepare_run?if not parallel and executor".
@@ -389,7 +399,7 @@ Definition c_st_dict (q : mreq) : result unit :=
                        (mapped_funcs q)
   end.
 (* the checks of _compare_to_previous_run_info are guarded by `RunInfo.path(run_folder).is_file()` *)
-Definition with_prev (q : mreq) (k : list (str * ival) * shape_dict -> result unit) : result unit :=
+Definition with_prev (q : mreq) (k : prev_info -> result unit) : result unit :=
   match q_prev q with None => Ok tt | Some p => k p end.
 Definition c_prev_internal (q : mreq) : result unit :=
   with_prev q (fun p => if dict_eqb shape_eqb (q_internal q) (old_internal q p)
@@ -404,7 +414,18 @@ Definition c_prev_shapes (q : mreq) : result unit :=
                         | _, _ => Ok tt      (* not reached: the previous check failed / the old run was valid *)
                         end).
 Definition c_prev_inputs (q : mreq) : result unit :=
-  with_prev q (fun p => match equal_inputs (q_inputs q) (fst p) with CFalse => Err ValueError | _ => Ok tt end).
+  with_prev q (fun p => match equal_inputs (q_inputs q) (pv_inputs p) with CFalse => Err ValueError | _ => Ok tt end).
+Definition c_prev_mapspecs (q : mreq) : result unit :=
+  with_prev q (fun p => if list_eqb mapspec_eqb (sorted_specs (q_funcs q)) (sorted_specs (prev_funcs q p))
+                        then Ok tt else Err ValueError).
+(* reached only when the inputs compared equal (an incomparable pair of inputs makes the function return early) *)
+Definition c_prev_defaults (q : mreq) : result unit :=
+  with_prev q (fun p => match equal_inputs (q_inputs q) (pv_inputs p) with
+                        | CTrue => if dict_eqb str_eqb (pipeline_defaults (q_funcs q)) (pipeline_defaults (prev_funcs q p))
+                                      && dict_eqb str_eqb (pipeline_defaults (prev_funcs q p)) (pipeline_defaults (q_funcs q))
+                                   then Ok tt else Err ValueError
+                        | _ => Ok tt
+                        end).
 Definition c_map_shapes (q : mreq) : result unit :=
   do _ <- map_shapes q (construct_internal (q_internal q) (q_funcs q)); Ok tt.
 
@@ -417,13 +438,15 @@ Definition chk (l : str) (q : mreq) : result unit :=
   else if str_eqb l L_st_missing then c_st_missing q
   else if str_eqb l L_st_dict then c_st_dict q
   else if str_eqb l L_prev_internal then c_prev_internal q
+  else if str_eqb l L_prev_mapspecs then c_prev_mapspecs q
   else if str_eqb l L_prev_map_shapes then c_prev_map_shapes q
   else if str_eqb l L_prev_shapes then c_prev_shapes q
   else if str_eqb l L_prev_inputs then c_prev_inputs q
+  else if str_eqb l L_prev_defaults then c_prev_defaults q
   else if str_eqb l L_check_inputs then check_inputs q
   else if str_eqb l L_map_shapes then c_map_shapes q
-  else Ok tt.   (* L_subpipeline, L_slurm, L_fixed, L_prev_load, L_prev_mapspecs, L_prev_defaults: cannot fail for the
-                   requests of this model (see NOT MODELLED) *)
+  else Ok tt.   (* L_subpipeline, L_slurm, L_fixed, L_prev_load: cannot fail for the requests of this model
+                   (see NOT MODELLED) *)
 
 (* the skeleton (non-Pure steps) of prepare_run, in the code's order *)
 Definition storage_checks : list step := [Check L_st_str; Check L_st_missing; Check L_st_dict].
